@@ -84,10 +84,10 @@ func (m *syncManager) Find(q interface{}) ([]persistedretry.Task, error) {
 // nopManager accepts and forgets tasks.
 type nopManager struct{}
 
-func (nopManager) Add(persistedretry.Task) error                         { return nil }
-func (nopManager) SyncExec(persistedretry.Task) error                    { return nil }
-func (nopManager) Close()                                                {}
-func (nopManager) Find(q interface{}) ([]persistedretry.Task, error)     { return nil, nil }
+func (nopManager) Add(persistedretry.Task) error                     { return nil }
+func (nopManager) SyncExec(persistedretry.Task) error                { return nil }
+func (nopManager) Close()                                            {}
+func (nopManager) Find(q interface{}) ([]persistedretry.Task, error) { return nil, nil }
 
 // noDeps resolves every tag to no dependencies.
 type noDeps struct{}
